@@ -215,6 +215,24 @@ func genHistory(seed int64, index uint64, allowHuge bool) []bufCall {
 		}
 		c.prog = hprog{kind: kind, k: r.Intn(4), garbage: []int{-1, -100, 1 << 40, len(doc) + 1, len(doc) + 7, 1, 2}[r.Intn(7)], mask: r.Uint64(), seed: r.Uint64()}
 	}
+	if index%40 == 7 {
+		// deep-themed history: the handler traversals (which have no depth limit) first grow the
+		// shared stack far beyond 10,000 entries; then the depth-limited functions meet documents
+		// at the limit with that oversized, dirty stack (seeded change C01/m2 needs exactly this)
+		pat := workload.NestPatterns[r.Intn(12)]
+		d0 := []int{12000, 15000, 20001}[r.Intn(3)]
+		calls[0] = bufCall{fn: 3 + r.Intn(2), doc: workload.BuildNest(pat, d0, "0", []int{d0, 0, d0 / 2}[r.Intn(3)]), prog: hprog{kind: 0}}
+		if calls[0].fn == 4 && calls[0].doc[0] != '{' {
+			calls[0].fn = 3
+		}
+		if calls[0].fn == 3 && calls[0].doc[0] != '[' {
+			calls[0].fn = 4
+		}
+		for i := 1; i < len(calls); i += 2 + r.Intn(3) {
+			d := []int{9999, 10000, 10001, 10002, 10003}[r.Intn(5)]
+			calls[i] = bufCall{fn: r.Intn(5), doc: workload.BuildNest(workload.NestPatterns[r.Intn(12)], d, []string{"", "0"}[r.Intn(2)], d), prog: hprog{kind: r.Intn(3), mask: r.Uint64()}}
+		}
+	}
 	return calls
 }
 
